@@ -9,17 +9,19 @@ def main():
     if not ok:
         # a broken proof must not prevent the models (and the other properties) from building
         log("coq make reported errors:\n" + out[-3000:])
-    ok2, out2 = build_models()
-    if not ok2:
-        log("model/extraction build failed:\n" + out2[-3000:])
-        return 1
+    rc = 0
+    for pid in sorted(d for d in os.listdir(os.path.join(COQ, "theories")) if os.path.exists(os.path.join(COQ, "theories", d, "Runner.v"))):
+        ok2, out2 = build_models(pid)
+        if not ok2:
+            log("model/extraction build failed for %s:\n" % pid + out2[-3000:])
+            rc = 1
     bins = sorted(f[:-3] for f in os.listdir(os.path.join(ROOT, "harness", "src", "bin")) if f.endswith(".rs"))
     for rel in (False, True):
         okc, outc = cargo_build(bins, release=rel)
         if not okc:
             log("cargo build failed:\n" + outc[-3000:])
             return 1
-    return 0
+    return rc
 
 if __name__ == "__main__":
     sys.exit(main())
